@@ -56,6 +56,7 @@ type MemCfg struct {
 	FreqMHz    int    `json:"freq_mhz"`
 	TransQ     int    `json:"trans_q"`
 	CmdQ       int    `json:"cmd_q"`
+	Capacity   uint64 `json:"capacity"` // 0 = 4 GiB
 }
 
 // StackCfg describes a whole memory-hierarchy assembly.
@@ -147,6 +148,10 @@ func BuildStack(cfg StackCfg, dir string) *Stack {
 	// memories
 	mc := cfg.Mem
 	n := or(mc.Count, 1)
+	capacity := mc.Capacity
+	if capacity == 0 {
+		capacity = 1 << 32
+	}
 	var shared *mem.Storage
 	var memTops []messaging.RemotePort
 	for i := 0; i < n; i++ {
@@ -154,7 +159,7 @@ func BuildStack(cfg StackCfg, dir string) *Stack {
 		var comp messaging.Component
 		var st *mem.Storage
 		if mc.SharedStorage && shared == nil && mc.Kind != "dram" {
-			shared = mem.MakeStorageBuilder().WithCapacity(1 << 32).WithSimulation(reg).Build("SharedStorage")
+			shared = mem.MakeStorageBuilder().WithCapacity(capacity).WithSimulation(reg).Build("SharedStorage")
 		}
 		switch mc.Kind {
 		case "banked":
@@ -165,7 +170,7 @@ func BuildStack(cfg StackCfg, dir string) *Stack {
 			sp.BankPipelineWidth = or(mc.PWidth, 1)
 			sp.StageLatency = or(mc.Latency, 3)
 			sp.PostPipelineBufSize = or(mc.PostBuf, 1)
-			sp.Capacity = 1 << 32
+			sp.Capacity = capacity
 			c := simplebankedmemory.MakeBuilder().WithRegistrar(reg).WithSpec(sp).
 				WithResources(simplebankedmemory.Resources{Storage: shared}).Build(name)
 			comp, st = c, c.Resources().Storage
@@ -189,7 +194,7 @@ func BuildStack(cfg StackCfg, dir string) *Stack {
 			sp.Freq = mhz(mc.FreqMHz, sp.Freq)
 			sp.Latency = or(mc.Latency, 5)
 			sp.Width = or(mc.Width, 1)
-			sp.Capacity = 1 << 32
+			sp.Capacity = capacity
 			c := idealmemcontroller.MakeBuilder().WithRegistrar(reg).WithSpec(sp).
 				WithResources(idealmemcontroller.Resources{Storage: shared}).Build(name)
 			comp, st = c, c.Resources().Storage
